@@ -514,6 +514,10 @@ class Densify(EnvironmentFilter):
 
         self._lookup = defaultdict(factory)
 
+    def __reduce__(self) -> tuple:
+        #the index generator can't be pickled, a copy starts with an empty lookup as a new Densify does
+        return (Densify, (self._n_feats, self._method, self._context, self._action))
+
     @property
     def params(self) -> Mapping[str, Any]:
         return { "dense_m": self._method, "dense_n": self._n_feats, "dense_c": self._context, "dense_a": self._action }
